@@ -194,74 +194,171 @@ def setup_merge_rest(cx):
     return dict(self=o, molecule=other, correspondence=cx.val('correspondence', TMap(OKey, TInt)))
 
 
-SPEC_MR = {
-    'olen': "lambda t: len(old(SELF_INTER)[t]) if t in old(SELF_INTER) else 0",
-    'C': "lambda k: correspondence[k]",
-    'has_e': "lambda E, a, b: (a, b) in E",
-    # the q-th interaction of type t of the newcomer, copied with its atoms renumbered
-    'copied': "lambda s, o: len(s.atoms) == len(o.atoms) and forall(lambda j: implies(0 <= j and j < len(o.atoms), s.atoms[j] == C(o.atoms[j]))) "
-              "and s.parameters == o.parameters and s.meta == o.meta",
-}
-SPEC_MR['done'] = ("lambda t: (t in SELF_INTER) == (t in old(SELF_INTER) or len(other_inter[t]) > 0) and "
-                   "(len(SELF_INTER[t]) if t in SELF_INTER else 0) == olen(t) + len(other_inter[t]) and "
-                   "forall(lambda q: implies(0 <= q and q < olen(t), SELF_INTER[t][q] == old(SELF_INTER)[t][q])) and "
-                   "forall(lambda q: implies(0 <= q and q < len(other_inter[t]), copied(SELF_INTER[t][olen(t) + q], other_inter[t][q])))")
-MR_TYPES_DONE = "forall(lambda t: implies(t in other_inter and posof(other_inter, t) < {I}, done(t)), TStr)"
-MR_TYPES_REST = ("forall(lambda t: implies(not (t in other_inter and posof(other_inter, t) < {I}) and {X}, (t in SELF_INTER) == (t in old(SELF_INTER)) and "
-                 "implies(t in SELF_INTER, SELF_INTER[t] == old(SELF_INTER)[t])), TStr)")
-merge_rest = FunctionContract(
-    F, 'Molecule.merge_molecule', 'C12', short='merge_molecule[interactions and bonds]', setup=setup_merge_rest, spec_defs=SPEC_MR,
-    spec_env=dict(OKey=OKey, Params=Params, Meta=Meta),
-    region=dict(start="for name, interactions in molecule.interactions.items():", end="self.citations.update(molecule.citations)"),
-    locals=dict(g_w=TMap(SEdge, TInt)),
-    requires=[
-        # what the atom part establishes (its postcondition): every atom of the newcomer has its new key, which is an atom of
-        # the receiver; the newcomer's interactions and bonds refer to its own atoms (its class invariant)
-        "forall(lambda t, q, j: implies(t in other_inter and 0 <= q and q < len(other_inter[t]) and 0 <= j and j < len(other_inter[t][q].atoms), "
-        "   other_inter[t][q].atoms[j] in correspondence and C(other_inter[t][q].atoms[j]) in SELF_NODES), TStr, TInt, TInt)",
-        "forall(lambda q: implies(0 <= q and q < len(other_edges), other_edges[q][0] in correspondence and other_edges[q][1] in correspondence))",
-    ],
-    ghost_at={'entry': "g_w = {}"},
-    ensures=[
-        # every interaction of the newcomer is appended, in order, to the receiver's list of its type, with the atoms
-        # renumbered and parameters and meta kept; the receiver's own interactions stay, lists of other types are untouched
-        MR_TYPES_DONE.format(I='len(other_inter)'), MR_TYPES_REST.format(I='len(other_inter)', X='True'),
-        # every bond of the newcomer (between atoms that get different keys) is a bond between the renumbered atoms; no
-        # other bond appears; the receiver's bonds stay
-        "forall(lambda q: implies(0 <= q and q < len(other_edges) and C(other_edges[q][0]) != C(other_edges[q][1]), "
-        "   (C(other_edges[q][0]), C(other_edges[q][1])) in SELF_EDGES))",
-        "forall(lambda a, b: implies((a, b) in SELF_EDGES and not ((a, b) in old(SELF_EDGES)), 0 <= g_w[(a, b)] and g_w[(a, b)] < len(other_edges) and "
-        "   a == C(other_edges[g_w[(a, b)]][0]) and b == C(other_edges[g_w[(a, b)]][1])))",
-        "forall(lambda a, b: implies((a, b) in old(SELF_EDGES), (a, b) in SELF_EDGES))",
-        "SELF_NODES == old(SELF_NODES)",
-    ],
-    modifies=['SELF_INTER', 'SELF_EDGES'],
-    loops={
-        'L1': LoopSpec(inv=[MR_TYPES_DONE.format(I='_i'), MR_TYPES_REST.format(I='_i', X='True'), "SELF_EDGES == old(SELF_EDGES)"],
-                       modifies=['SELF_INTER'],
-                       ghost_end="prove(name in other_inter and posof(other_inter, name) == _i and keyat(other_inter, _i) == name, 'this-type')\n"
-                                 "prove(done(name), 'this-type-done')\n"
-                                 "prove(forall(lambda t: implies(t in other_inter and posof(other_inter, t) < _i, done(t)), TStr), 'earlier-types')"),
-        'L1.1': LoopSpec(inv=[MR_TYPES_DONE.format(I='_iL1'), MR_TYPES_REST.format(I='_iL1', X='t != name'),
-                              "name in other_inter and posof(other_inter, name) == _iL1",
-                              "implies(_i > 0 or name in old(SELF_INTER), name in SELF_INTER) and "
-                              "(len(SELF_INTER[name]) if name in SELF_INTER else 0) == olen(name) + _i",
-                              "forall(lambda q: implies(0 <= q and q < olen(name), SELF_INTER[name][q] == old(SELF_INTER)[name][q]))",
-                              "forall(lambda q: implies(0 <= q and q < _i, copied(SELF_INTER[name][olen(name) + q], other_inter[name][q])))",
-                              "implies(_i == 0 and not (name in old(SELF_INTER)), not (name in SELF_INTER))",
-                              "SELF_EDGES == old(SELF_EDGES)"],
-                         modifies=['SELF_INTER']),
-        'L2': LoopSpec(inv=["forall(lambda q: implies(0 <= q and q < _i and C(other_edges[q][0]) != C(other_edges[q][1]), "
-                            "   (C(other_edges[q][0]), C(other_edges[q][1])) in SELF_EDGES))",
-                            "forall(lambda a, b: implies((a, b) in SELF_EDGES and not ((a, b) in old(SELF_EDGES)), 0 <= g_w[(a, b)] and g_w[(a, b)] < _i and "
-                            "   a == C(other_edges[g_w[(a, b)]][0]) and b == C(other_edges[g_w[(a, b)]][1])))",
-                            "forall(lambda a, b: implies((a, b) in old(SELF_EDGES), (a, b) in SELF_EDGES))"],
-                       modifies=['SELF_EDGES', 'g_w'], locals=dict(g_w=TMap(SEdge, TInt)), ghost_pre="g_E = set(SELF_EDGES)",
-                       ghost_end="if correspondence[node1] != correspondence[node2] and not ((correspondence[node1], correspondence[node2]) in g_E):\n"
-                                 "    g_w[(correspondence[node1], correspondence[node2])] = _i"),
-    },
-    canary=[("atoms = tuple(correspondence[atom] for atom in interaction.atoms)", "atoms = tuple(correspondence[interaction.atoms[0]] for atom in interaction.atoms)"),
-            ("self.add_edge(correspondence[node1], correspondence[node2], **attrs)", "self.add_edge(correspondence[node1], correspondence[node1], **attrs)"),
-            ("self.add_interaction(name, atoms, interaction.parameters, interaction.meta)", "self.add_interaction(name, atoms, interaction.parameters, {})")],
-)
+def _rest_contract(qualname, short, region, setup, corr, n1, n2, canary, guarded=True):
+    SPEC_MR = {
+        'olen': "lambda t: len(old(SELF_INTER)[t]) if t in old(SELF_INTER) else 0",
+        'C': "lambda k: %s[k]" % corr,
+        'has_e': "lambda E, a, b: (a, b) in E",
+        # the q-th interaction of type t of the newcomer, copied with its atoms renumbered
+        'copied': "lambda s, o: len(s.atoms) == len(o.atoms) and forall(lambda j: implies(0 <= j and j < len(o.atoms), s.atoms[j] == C(o.atoms[j]))) "
+                  "and s.parameters == o.parameters and s.meta == o.meta",
+    }
+    SPEC_MR['done'] = ("lambda t: (t in SELF_INTER) == (t in old(SELF_INTER) or len(other_inter[t]) > 0) and "
+                       "(len(SELF_INTER[t]) if t in SELF_INTER else 0) == olen(t) + len(other_inter[t]) and "
+                       "forall(lambda q: implies(0 <= q and q < olen(t), SELF_INTER[t][q] == old(SELF_INTER)[t][q])) and "
+                       "forall(lambda q: implies(0 <= q and q < len(other_inter[t]), copied(SELF_INTER[t][olen(t) + q], other_inter[t][q])))")
+    MR_TYPES_DONE = "forall(lambda t: implies(t in other_inter and posof(other_inter, t) < {I}, done(t)), TStr)"
+    MR_TYPES_REST = ("forall(lambda t: implies(not (t in other_inter and posof(other_inter, t) < {I}) and {X}, (t in SELF_INTER) == (t in old(SELF_INTER)) and "
+                     "implies(t in SELF_INTER, SELF_INTER[t] == old(SELF_INTER)[t])), TStr)")
+    return FunctionContract(
+        F, qualname, 'C12', short=short, setup=setup, spec_defs=SPEC_MR,
+        spec_env=dict(OKey=OKey, Params=Params, Meta=Meta),
+        region=region,
+        locals=dict(g_w=TMap(SEdge, TInt)),
+        requires=[
+            # what the atom part establishes (its postcondition): every atom of the newcomer has its new key, which is an atom of
+            # the receiver; the newcomer's interactions and bonds refer to its own atoms (its class invariant)
+            ("forall(lambda t, q, j: implies(t in other_inter and 0 <= q and q < len(other_inter[t]) and 0 <= j and j < len(other_inter[t][q].atoms), "
+             "   other_inter[t][q].atoms[j] in {CORR} and C(other_inter[t][q].atoms[j]) in SELF_NODES), TStr, TInt, TInt)").format(CORR=corr),
+            "forall(lambda q: implies(0 <= q and q < len(other_edges), other_edges[q][0] in {CORR} and other_edges[q][1] in {CORR}))".format(CORR=corr),
+        ],
+        ghost_at={'entry': "g_w = {}"},
+        ensures=[
+            # every interaction of the newcomer is appended, in order, to the receiver's list of its type, with the atoms
+            # renumbered and parameters and meta kept; the receiver's own interactions stay, lists of other types are untouched
+            MR_TYPES_DONE.format(I='len(other_inter)'), MR_TYPES_REST.format(I='len(other_inter)', X='True'),
+            # every bond of the newcomer (between atoms that get different keys) is a bond between the renumbered atoms; no
+            # other bond appears; the receiver's bonds stay
+            "forall(lambda q: implies(0 <= q and q < len(other_edges) and C(other_edges[q][0]) != C(other_edges[q][1]), "
+            "   (C(other_edges[q][0]), C(other_edges[q][1])) in SELF_EDGES))",
+            "forall(lambda a, b: implies((a, b) in SELF_EDGES and not ((a, b) in old(SELF_EDGES)), 0 <= g_w[(a, b)] and g_w[(a, b)] < len(other_edges) and "
+            "   a == C(other_edges[g_w[(a, b)]][0]) and b == C(other_edges[g_w[(a, b)]][1])))",
+            "forall(lambda a, b: implies((a, b) in old(SELF_EDGES), (a, b) in SELF_EDGES))",
+            "SELF_NODES == old(SELF_NODES)",
+        ],
+        modifies=['SELF_INTER', 'SELF_EDGES'],
+        loops={
+            'L1': LoopSpec(inv=[MR_TYPES_DONE.format(I='_i'), MR_TYPES_REST.format(I='_i', X='True'), "SELF_EDGES == old(SELF_EDGES)"],
+                           modifies=['SELF_INTER'],
+                           ghost_end="prove(name in other_inter and posof(other_inter, name) == _i and keyat(other_inter, _i) == name, 'this-type')\n"
+                                     "prove(done(name), 'this-type-done')\n"
+                                     "prove(forall(lambda t: implies(t in other_inter and posof(other_inter, t) < _i, done(t)), TStr), 'earlier-types')"),
+            'L1.1': LoopSpec(inv=[MR_TYPES_DONE.format(I='_iL1'), MR_TYPES_REST.format(I='_iL1', X='t != name'),
+                                  "name in other_inter and posof(other_inter, name) == _iL1",
+                                  "implies(_i > 0 or name in old(SELF_INTER), name in SELF_INTER) and "
+                                  "(len(SELF_INTER[name]) if name in SELF_INTER else 0) == olen(name) + _i",
+                                  "forall(lambda q: implies(0 <= q and q < olen(name), SELF_INTER[name][q] == old(SELF_INTER)[name][q]))",
+                                  "forall(lambda q: implies(0 <= q and q < _i, copied(SELF_INTER[name][olen(name) + q], other_inter[name][q])))",
+                                  "implies(_i == 0 and not (name in old(SELF_INTER)), not (name in SELF_INTER))",
+                                  "SELF_EDGES == old(SELF_EDGES)"],
+                             modifies=['SELF_INTER']),
+            'L2': LoopSpec(inv=["forall(lambda q: implies(0 <= q and q < _i and C(other_edges[q][0]) != C(other_edges[q][1]), "
+                                "   (C(other_edges[q][0]), C(other_edges[q][1])) in SELF_EDGES))",
+                                "forall(lambda a, b: implies((a, b) in SELF_EDGES and not ((a, b) in old(SELF_EDGES)), 0 <= g_w[(a, b)] and g_w[(a, b)] < _i and "
+                                "   a == C(other_edges[g_w[(a, b)]][0]) and b == C(other_edges[g_w[(a, b)]][1])))",
+                                "forall(lambda a, b: implies((a, b) in old(SELF_EDGES), (a, b) in SELF_EDGES))"],
+                           modifies=['SELF_EDGES', 'g_w'], locals=dict(g_w=TMap(SEdge, TInt)), ghost_pre="g_E = set(SELF_EDGES)",
+                           ghost_end=(("if {C}[{A}] != {C}[{B}] and not (({C}[{A}], {C}[{B}]) in g_E):\n" if guarded else
+                                               "if not (({C}[{A}], {C}[{B}]) in g_E):\n") +
+                                              "    g_w[({C}[{A}], {C}[{B}])] = _i").format(C=corr, A=n1, B=n2)),
+        },
+        canary=canary,
+    )
+
+
+merge_rest = _rest_contract(
+    'Molecule.merge_molecule', 'merge_molecule[interactions and bonds]',
+    dict(start="for name, interactions in molecule.interactions.items():", end="self.citations.update(molecule.citations)"),
+    setup_merge_rest, 'correspondence', 'node1', 'node2',
+    [("atoms = tuple(correspondence[atom] for atom in interaction.atoms)", "atoms = tuple(correspondence[interaction.atoms[0]] for atom in interaction.atoms)"),
+     ("self.add_edge(correspondence[node1], correspondence[node2], **attrs)", "self.add_edge(correspondence[node1], correspondence[node1], **attrs)"),
+     ("self.add_interaction(name, atoms, interaction.parameters, interaction.meta)", "self.add_interaction(name, atoms, interaction.parameters, {})")])
 CONTRACTS.append(merge_rest)
+
+
+# ------------------------------------------------------------------ Block.to_molecule: the same copy, from a block into a fresh molecule
+def setup_to_molecule_rest(cx):
+    d = setup_merge_rest(cx)
+    receiver, block = d['self'], d['molecule']
+    oedges = block.attrs['edges'].__dict__['iter']
+    # self.edges(data=True): (a, b, attributes) for every bond of the block
+    from pyvc.values import IterV
+    from pyvc.builtins import _int
+    st = TSeq(OEdge)
+
+    def edges(e, data=False):
+        if data is not True:
+            raise EngineError('self.edges(data=%r)' % (data,))
+        oe = to_z3(oedges, st)
+        return IterV(st.len(oe), lambda i: (SV(OKey, OEdge.get(st.at(oe, _int(i)), 0)), SV(OKey, OEdge.get(st.at(oe, _int(i)), 1)),
+                                            SV(TMap(TStr, EAttr), e.fresh(TMap(TStr, EAttr), 'eattrs'))))
+    block.attrs['edges'] = Builtin(edges, 'block.edges')
+    return dict(self=block, mol=receiver, name_to_idx=d['correspondence'])
+
+
+to_molecule_rest = _rest_contract(
+    'Block.to_molecule', 'Block.to_molecule[interactions and bonds]',
+    dict(start="for name, interactions in self.interactions.items():", end="try:"),
+    setup_to_molecule_rest, 'name_to_idx', 'nodea', 'nodeb',
+    [("name_to_idx[atom] for atom in interaction.atoms", "name_to_idx[interaction.atoms[0]] for atom in interaction.atoms"),
+     ("mol.add_edge(*(name_to_idx[node] for node in edge), **attrs)", "mol.add_edge(*(name_to_idx[nodea] for node in edge), **attrs)"),
+     ("meta=interaction.meta", "meta={}")],
+    guarded=False)          # to_molecule copies every bond of the block (merge_molecule skips bonds between atoms that get one key)
+CONTRACTS.append(to_molecule_rest)
+
+
+
+# ------------------------------------------------------------------ Block.to_molecule: keys and attributes of the atoms
+def setup_to_molecule_atoms(cx):
+    o, SN = receiver(cx)
+    order = cx.val('other_order', TSeq(OKey))
+    other_nodes = cx.val('other_nodes', OtherNodes)
+    nv = Obj('NodeView', __getitem__=Builtin(lambda e, k: getitem(e, other_nodes, k), 'block.nodes[]'))
+    nv.__dict__['iter'] = order
+    block = Obj('Block', nodes=nv)
+    cx.spec_env['other_order'], cx.spec_env['other_nodes'] = order, other_nodes
+    cx.uf('opos', [OKey], TInt)
+    defaults = cx.val('default_attributes', Attrs)
+    cx.spec_env['DEFAULTS'] = defaults
+    return dict(self=block, mol=o, name_to_idx=cx.box('name_to_idx', TMap(OKey, TInt)), default_attributes=defaults,
+                atom_offset=cx.val('atom_offset', TInt), offset_resid=cx.val('offset_resid', TInt),
+                offset_charge_group=cx.val('offset_charge_group', TInt))
+
+
+SPEC_TM = dict(SPEC)
+SPEC_TM.update({
+    # the attributes a block atom gets in the molecule: the defaults, overridden by its own, residue number and charge group
+    # shifted (1 when missing)
+    'placed': "lambda new, src: forall(lambda x: implies(x != 'resid' and x != 'charge_group', "
+              "(x in new) == (x in src or x in DEFAULTS) and implies(x in new, new[x] == (src[x] if x in src else DEFAULTS[x]))), TStr) and "
+              "'resid' in new and new['resid'] == (src['resid'] if 'resid' in src else (DEFAULTS['resid'] if 'resid' in DEFAULTS else 1)) + offset_resid and "
+              "'charge_group' in new and new['charge_group'] == (src['charge_group'] if 'charge_group' in src else "
+              "   (DEFAULTS['charge_group'] if 'charge_group' in DEFAULTS else 1)) + offset_charge_group",
+})
+TM_INV = [
+    "forall(lambda i: implies(0 <= i and i < {I}, other_order[i] in name_to_idx and name_to_idx[other_order[i]] == atom_offset + i))",
+    "forall(lambda k: implies(k in name_to_idx, k in other_nodes and opos(k) < {I}), OKey)",
+    "forall(lambda k: (k in SELF_NODES) == (atom_offset <= k and k < atom_offset + {I}))",
+    "forall(lambda i: implies(0 <= i and i < {I}, placed(SELF_NODES[atom_offset + i], other_nodes[other_order[i]])))",
+]
+to_molecule_atoms = FunctionContract(
+    F, 'Block.to_molecule', 'C12', short='Block.to_molecule[atoms]', setup=setup_to_molecule_atoms, spec_defs=SPEC_TM,
+    spec_env=dict(OKey=OKey),
+    region=dict(start="for idx, node in enumerate(self.nodes, start=atom_offset):", end="for name, interactions in self.interactions.items():"),
+    axioms=lambda cx, env: [cx.eng._b(cx.eng.spec_truth(a, env)) for a in WORLD],
+    # a fresh molecule and an empty table
+    requires=["len(old(SELF_NODES)) == 0 and maxinv(mol.max_node, SELF_NODES)", "len(old(name_to_idx)) == 0"],
+    ensures=[
+        # the block's atoms get the keys atom_offset, atom_offset + 1, ... in the block's order - the table the interactions and
+        # bonds are renumbered with -, the molecule has exactly those atoms, each with the block atom's attributes on top of the
+        # defaults and with residue number and charge group shifted by the given offsets
+    ] + [x.format(I='len(other_order)') for x in TM_INV] + ["maxinv(mol.max_node, SELF_NODES)"],
+    modifies=['SELF_NODES', 'mol.max_node', 'name_to_idx'],
+    loops={'L1': LoopSpec(inv=[x.format(I='_i') for x in TM_INV] + ["maxinv(mol.max_node, SELF_NODES)"],
+                          modifies=['SELF_NODES', 'name_to_idx', 'mol.max_node'], locals=dict(max_node=TOpt(TInt)),
+                          ghost_end="prove(idx == atom_offset + _i, 'new-key')\n"
+                                    "prove(placed(SELF_NODES[idx], other_nodes[node]), 'new-atom-placed')")},
+    canary=[("new_atom.update(atom)", "pass"), ("+ offset_resid", "+ offset_charge_group"),
+            ("name_to_idx[node] = idx", "name_to_idx[node] = idx + 1")],
+)
+CONTRACTS.append(to_molecule_atoms)
